@@ -32,7 +32,7 @@ def b01 (b : Bool) : String := if b then "1" else "0"
 def showFields (g : G) (ports : Ports) (unsup : Bool := false) : String :=
   let f := g.sh.flags
   let kid : Kid := { g := g, ports := ports }
-  s!"st={g.sh.status} name={b01 (g.sh.name == .self)} succ={b01 (g.sh.name == .succ)} pid={b01 !f.unregPid} pg={b01 !f.pgLeft} mon={b01 !f.pgDemon} kids={if f.terminated then 0 else 1} link={b01 !f.unlinked} sup={if unsup then 0 else 1 + g.sh.supEvents} post={b01 f.postStop} sp={b01 kid.stopOpen} kp={b01 kid.signalOpen}"
+  s!"st={g.sh.status} name={b01 (g.sh.name == .self)} succ={b01 (g.sh.name == .succ)} pid={b01 !f.unregPid} pg={b01 !f.pgLeft} mon={b01 !f.pgDemon} kids={if f.terminated || (g.sh.killPending && g.exiter.pc.loopGone) then 0 else 1} link={b01 !f.unlinked} sup={if unsup then 0 else 1 + g.sh.supEvents} post={b01 f.postStop} sp={b01 kid.stopOpen} kp={b01 kid.signalOpen}"
 
 def exiterAt (g : G) : String := g.exiter.pc.point
 
@@ -48,6 +48,12 @@ structure Case where
   unregRuns : Nat := 0
   notifyRuns : Nat := 0
   succSeen : Bool := false  -- the successor has held the name
+  /-- from the implementation's own lines: the exiter has been seen at `post_stop`; the signal port was
+  open on the previous line; a `kill_and_wait` was accepted before `post_stop` was reached (the exit is
+  then a killed one: no `post_stop` to wait for) -/
+  sawPost : Bool := false
+  lastKp : Bool := false
+  killedEarly : Bool := false
   raced : Bool := false     -- a waiter acted before the exiter had finished
   deriving Inhabited
 
@@ -114,6 +120,12 @@ def retSuffix (c : Caller) (unwound : Bool := false) : String :=
     else s!" ret={resName r}"
   | _ => ""
 
+/-- the actor's task ended by a panic (its join handle completes with `Err(JoinError)`): a statement of
+`cleanup` panicked, or — cause `stoppanic` after an early kill — the exploding state was dropped at the
+end of the task instead of inside the terminal event -/
+def taskPanicked (st : St) : Bool :=
+  st.g.exiter.unwound || (st.c.cause == "stoppanic" && st.g.sh.killPending)
+
 def sf (st : St) : String := showFields st.g st.ports (st.c.cause == "stoppanic")
 
 def kv (ws : List String) (k : String) : Option String :=
@@ -128,14 +140,15 @@ def saysOk (iw : List String) : Bool := iw.contains "ret" || iw.contains "ret=ok
 /-- a waiter returned on this line: the snapshot it sees must be that of a fully stopped actor —
 `ExitRace.snapshotOk` (the predicate of `C06.waiter_returns_only_after_full_stop`) on the
 implementation's observation -/
-def returnOk (cause : String) (ws : List String) : Bool :=
+def returnOk (cause : String) (ws : List String) (killedEarly : Bool := false) : Bool :=
   let is0 (k : String) : Bool := kv ws k == some "0"
   let flags : Flags :=
     { unregPid := is0 "pid", unregName := is0 "name", pgDemon := is0 "mon", pgLeft := is0 "pg",
       postStop := kv ws "post" == some "1", terminated := is0 "kids",
       -- an unsupervised actor (cause `stoppanic`) has nobody to notify
       supNotified := cause == "stoppanic" || ((kv ws "sup").bind (·.toNat?)).getD 0 ≥ 2, unlinked := is0 "link" }
-  snapshotOk (((kv ws "st").bind (·.toNat?)).getD 0) flags (cause == "stop" || cause == "drain" || cause == "stoppanic")
+  snapshotOk (((kv ws "st").bind (·.toNat?)).getD 0) flags
+    ((cause == "stop" || cause == "drain" || cause == "stoppanic") && !killedEarly)
 
 def track (c : Case) (iw : List String) : Case × List String :=
   let st := ((kv iw "st").bind (·.toNat?)).getD 0
@@ -143,7 +156,8 @@ def track (c : Case) (iw : List String) : Case × List String :=
   let orc := (if st < c.lastSt then ["status-backwards"] else []) ++
     (if c.succSeen && !succ then ["successor-lost-name"] else [])
   -- (reported once per loss)
-  ({ c with lastFields := fieldsOf iw, lastSt := st, succSeen := succ }, orc)
+  ({ c with lastFields := fieldsOf iw, lastSt := st, succSeen := succ, lastKp := kv iw "kp" == some "1",
+            sawPost := c.sawPost || iw.contains "at=post_stop" }, orc)
 
 /-! ### children wrappers -/
 
@@ -306,7 +320,9 @@ def step1 (st : St) (op impl : String) : St × StepOut :=
     let pre := exiterAt st.g
     -- cause `stoppanic`: the state's destructor panics inside `notify_supervisor`, i.e. the
     -- statement at `cleanup.notify` panics (once) and the guard's `Drop` re-runs `cleanup`
-    let panics := st.c.cause == "stoppanic" && point == "cleanup.notify" && !st.g.exiter.unwound
+    -- (only a clean shutdown hands the state to the terminal event; after an early kill it is dropped when
+    -- the task ends, after `cleanup`)
+    let panics := st.c.cause == "stoppanic" && point == "cleanup.notify" && !st.g.exiter.unwound && !st.g.sh.killPending
     let g' := _root_.ExitRace.step st.g (if panics then .unwind else .e)
     let model := (if pre == point then "" else s!"model-at={pre} ") ++ s!"{sf { st with g := g' }} at={exiterAt g'}"
     let (c, orc) := track st.c iw
@@ -348,12 +364,13 @@ def step1 (st : St) (op impl : String) : St × StepOut :=
             { st with g := r2.1.g, ports := r2.1.ports, callers := st.callers.set i r2.2 }
         let cl' := (st'.callers[i]?).getD cl
         let model := (if pre == point then "" else s!"model-at={pre} ") ++
-          s!"{sf st'} at={callerAt st' i}{retSuffix cl' st'.g.exiter.unwound}"
-        let (c, orc) := track st.c iw
+          s!"{sf st'} at={callerAt st' i}{retSuffix cl' (taskPanicked st')}"
+        let early := st.c.killedEarly || (cl.form == .killWait && cl.pc == .send && st.c.lastKp && kv iw "kp" == some "0" && !st.c.sawPost)
+        let (c, orc) := track { st.c with killedEarly := early } iw
         -- the run-time oracle of every wait form: `Ok` ⇒ the snapshot is that of a fully stopped actor;
         -- a join handle: completed (with `Ok` or `Err(JoinError)`) ⇒ fully stopped
         let completed := saysOk iw || (cl.form == .join && iw.contains "ret=err")
-        let orc := orc ++ (if completed && !formOk (.ok (returnOk c.cause iw)) then ["premature-return"] else [])
+        let orc := orc ++ (if completed && !formOk (.ok (returnOk c.cause iw c.killedEarly)) then ["premature-return"] else [])
         let c := { c with raced := c.raced || !st.g.exiter.finished }
         ({ st' with c := c }, { model := model, oracle := orc })
   | ["timeout", w] =>
@@ -369,7 +386,7 @@ def step1 (st : St) (op impl : String) : St × StepOut :=
         let before := st.c.lastFields
         let (c, orc) := track st.c iw
         let orc := orc ++ (if fieldsOf iw == before then [] else ["timeout-effect"]) ++
-          (if saysOk iw && !formOk (.ok (returnOk c.cause iw)) then ["premature-return"] else [])
+          (if saysOk iw && !formOk (.ok (returnOk c.cause iw c.killedEarly)) then ["premature-return"] else [])
         ({ st' with c := { c with raced := true } }, { model := model, oracle := orc })
   | ["abandon", w] =>
     match w.toNat? with
@@ -385,7 +402,7 @@ def step1 (st : St) (op impl : String) : St × StepOut :=
   | "end" :: _ =>
     let g := st.g
     let ws := st.callers.zipIdx.map (fun (cl, i) => match cl.pc with
-      | .done (.ok _) => if cl.form == .join && g.exiter.unwound then "e" else "r"
+      | .done (.ok _) => if cl.form == .join && taskPanicked st then "e" else "r"
       | .done .sendErr => "e" | .done .timeout => "t"
       | _ => if waiterAbandoned g i then "a" else "p")
     let model := s!"{sf st} waiters={if ws.isEmpty then "-" else ",".intercalate ws}"
